@@ -8,7 +8,7 @@
 From Coq Require Import List NArith ZArith Arith Bool.
 From Coq Require String.
 From PyTRS Require Import Engine.Regex Gen.Patterns PyRt.Str Gen.Tables Model.Trs Model.Unpack Model.TractParse
-     Model.PlssPre Model.PlssParse Model.Config Model.PlssDesc Proofs.C09.Tracts.
+     Model.PlssPre Model.PlssParse Model.Config Model.PlssDesc Proofs.C09.Tracts Proofs.C12.Full.
 Import ListNotations.
 Import String.StringSyntax.
 Local Open Scope string_scope.
@@ -19,6 +19,29 @@ Theorem C09_orig_index_and_trs : forall text layout d ocr cu rc seg sw ts p,
   Forall (fun t => exists raw, to_trs t = TRS_trs (Some raw)) (po_tracts p).
 Proof. exact plss_parser_indices. Qed.
 Print Assumptions C09_orig_index_and_trs.
+
+(* the attributes the code derives for a tract (trs_to_dict of the raw twprge+sec string) are exactly
+   the decomposition of the tract's final .trs string -- for every text and every setting *)
+Theorem C09_attributes_decompose : forall text layout d ocr cu rc seg sw ts p,
+  plss_parser text layout d ocr cu rc seg sw ts = Ok p ->
+  Forall (fun t => exists raw, to_trs t = TRS_trs (Some raw) /\ trs_to_dict (Some (to_trs t)) = trs_to_dict (Some raw)) (po_tracts p).
+Proof.
+  intros text layout d ocr cu rc seg sw ts p H. destruct (plss_parser_indices _ _ _ _ _ _ _ _ _ _ H) as [_ F].
+  eapply Forall_impl; [|exact F]. intros t [raw E]. exists raw. split; [exact E|]. rewrite E. apply (trs_to_dict_idem (Some raw)).
+Qed.
+Print Assumptions C09_attributes_decompose.
+
+(* every tract's .trs is either the error TRS or its raw string split into components that are at most
+   case-normalised (C12_strict applied to the tracts) *)
+Theorem C09_trs_strict : forall text layout d ocr cu rc seg sw ts p,
+  plss_parser text layout d ocr cu rc seg sw ts = Ok p ->
+  Forall (fun t => exists raw, to_trs t = TRS_trs (Some raw) /\ (raw = [] \/ trs_res raw (to_trs t))) (po_tracts p).
+Proof.
+  intros text layout d ocr cu rc seg sw ts p H. destruct (plss_parser_indices _ _ _ _ _ _ _ _ _ _ H) as [_ F].
+  eapply Forall_impl; [|exact F]. intros t [raw E]. exists raw. split; [exact E|].
+  destruct raw as [|c0 r]; [left; reflexivity | right]. rewrite E. apply TRS_trs_spec. discriminate.
+Qed.
+Print Assumptions C09_trs_strict.
 
 (* the normalised TRS of anything that is not in the standard form is the error TRS, and the
    undefined TRS arises only from empty input -- which construct_tracts never supplies
